@@ -52,8 +52,11 @@ def impl(case):
 WILD_VALUES = [1e16, 1.0, -3.3, 7e-9, 0.1, 123456.789, -1e15, 2.5e-7, 1/3, -0.7, 9007199254740993.0, 0.0]
 WILD_GAPS = [0.1, 0.3, 1e-3, 0.7, 2.2, 1/3]
 
-def gen_case(rng, big=False, wild=False):
-    """wild: arbitrary (non-dyadic, badly scaled) float data with queries only at, before and after record times, where the
+def gen_case(rng, big=False, wild=False, scaled=False):
+    """scaled: record times that are huge relative to their spacing (t0 = +-2^k, gaps down to 2^-(42-k)), negative times, and
+    mixed scales (occasional gaps of the order of t0, so that negative histories cross zero); everything stays dyadic and
+    exactly representable, so the comparison stays exact.
+    wild: arbitrary (non-dyadic, badly scaled) float data with queries only at, before and after record times, where the
     property demands the stored record *exactly* whatever the rounding of the interpolation formula."""
     shape = rng.choice([[], [1], [2], [3], [2, 2], [1, 3]])
     k = 1
@@ -68,6 +71,14 @@ def gen_case(rng, big=False, wild=False):
     cap = rng.choice([0, 1, 2, 3, 5, 8]) if bounded else None
     init_cap = 1024 if big else rng.choice([1, 2, 3, 4, 16])
     t0 = Fr(rng.choice([0.0, -0.3, 1.7])) if wild else Fr(rng.randint(-16, 16), 4)
+    if scaled:
+        kexp = rng.randint(6, 30)
+        jmax = 42 - kexp
+        t0 = rng.choice([1, 1, -1]) * Fr(2) ** kexp + Fr(rng.randint(-8, 8), 8)
+        def gap():
+            if rng.random() < 0.15:
+                return Fr(2) ** (kexp - rng.randint(0, 4))                       # a gap of the order of |t0|
+            return Fr(rng.randint(1, 16), 2 ** rng.randint(max(0, jmax - 14), jmax))
     times, t = [t0], t0
     nops = rng.randint(2500, 3300) if big else rng.randint(3, 60)
     ops = []
@@ -85,7 +96,8 @@ def gen_case(rng, big=False, wild=False):
     for _ in range(nops):
         r = rng.random()
         if r < (0.97 if big else 0.5):
-            t = Fr(float(t) + rng.choice(WILD_GAPS)) if wild else t + Fr(1, 8) * 2 ** rng.randint(0, 4)
+            t = Fr(float(t) + rng.choice(WILD_GAPS)) if wild else (t + gap() if scaled else t + Fr(1, 8) * 2 ** rng.randint(0, 4))
+            assert Fr(float(t)) == t
             ops.append(["u", str(t), vec()])
             # a refused update does not enter the record list: track what the spec would accept
             if cap is None or len(times) < max(cap, 1):
@@ -96,7 +108,7 @@ def gen_case(rng, big=False, wild=False):
             ops.append(["m", rng.randrange(1000)])
     for _ in range(6 if not big else 40):
         ops.append(["q", str(qtime())])
-    return dict(y0=vec(), shape=shape, t0=str(t0), cap=cap, init_cap=init_cap, dtype=dtype, ops=ops, wild=wild)
+    return dict(y0=vec(), shape=shape, t0=str(t0), cap=cap, init_cap=init_cap, dtype=dtype, ops=ops, wild=wild, scaled=scaled)
 
 def nontrivial(case):
     eff_cap = case["cap"]
@@ -200,7 +212,7 @@ def check(ctx):
         rp = json.load(open(ctx.replay))
         cases = [rp["case"]] if "case" in rp else []
     else:
-        cases = (load_corpus("C19") + [gen_case(ctx.rng) for _ in range(n_small)] + [gen_case(ctx.rng, wild=True) for _ in range(n_small // 3)]
+        cases = (load_corpus("C19") + [gen_case(ctx.rng) for _ in range(n_small)] + [gen_case(ctx.rng, wild=True) for _ in range(n_small // 3)] + [gen_case(ctx.rng, scaled=True) for _ in range(n_small // 3)]
                  + [gen_case(ctx.rng, big=True) for _ in range(n_big)])
     outs = run_impl(ctx, "c19", "impl", cases)
     crashed = [i for i, r in enumerate(outs) if isinstance(r, dict)]
@@ -215,7 +227,7 @@ def check(ctx):
              shrink=lambda c: shrink(ctx, c),
              show=lambda c: (lambda r: dict(implementation_output=r, model_output=model_outputs(ctx, c, r, "show") if not isinstance(r, dict) else None))(fails(ctx, c, "show")[1]))
     nt = {canon(c) for c in cases if nontrivial(c)}
-    hist = dict(wild_float_data=sum(1 for c in cases if c.get("wild")), complex128=sum(1 for c in cases if c["dtype"] == "complex128"), bounded=sum(1 for c in cases if c["cap"] is not None), float32=sum(1 for c in cases if c["dtype"] == "float32"),
+    hist = dict(wild_float_data=sum(1 for c in cases if c.get("wild")), large_time_small_spacing=sum(1 for c in cases if c.get("scaled")), complex128=sum(1 for c in cases if c["dtype"] == "complex128"), bounded=sum(1 for c in cases if c["cap"] is not None), float32=sum(1 for c in cases if c["dtype"] == "float32"),
                 with_growth=sum(1 for c in cases if c["cap"] is None and sum(1 for o in c["ops"] if o[0] == "u") + 1 > c["init_cap"]),
                 real_capacity_1024=sum(1 for c in cases if c["init_cap"] == 1024 and c["cap"] is None),
                 ops=dict(update=sum(1 for c in cases for o in c["ops"] if o[0] == "u"), query=sum(1 for c in cases for o in c["ops"] if o[0] == "q"),
